@@ -5,8 +5,8 @@ from ..model import cov
 
 PROPERTY = "C12"
 LEVEL = "exploration"
-RULE = ("cases = a generated covergroup class whose constructor parameters (bin count, value range) select the bin set "
-        "of one coverpoint (=> shapes), a second fixed coverpoint, optionally a cross, at_least/weight options at "
+RULE = ("cases = a generated covergroup class whose constructor parameter (partitioned range or value list) selects the bin "
+        "set of one coverpoint (=> shapes; some shapes are prefixes of others), a second fixed coverpoint, optionally a cross, at_least/weight options at "
         "covergroup, coverpoint and cross level (weights incl. 0), and a generated history of operations: create an "
         "instance of a variant / sample instance i with generated values; after EVERY operation every live instance is "
         "compared with a dict-based model: own hit vectors, type hit vectors = bin-wise sum over same-shape instances, "
@@ -20,13 +20,30 @@ ASSUMPTIONS = [
     "type-level hit vectors are read through the type model reachable from the instance model (model getters)",
 ]
 
-VARIANTS = [(2, 7), (4, 7), (2, 11), (3, 7), (2, 9), (1, 15), (16, 15)]
+# constructor argument -> bin set of cp1.  ("part", n, hi): bin_array([n], [0, hi]);  ("vals", [v...]): bin_array([], v...)
+# (several variants are prefix-related: the bins of one are the first bins of another)
+VARIANTS = [["part", 2, 7], ["part", 4, 7], ["part", 2, 11], ["part", 3, 7], ["part", 2, 9], ["part", 1, 15], ["part", 16, 15],
+            ["part", 3, 11], ["part", 4, 15], ["part", 1, 3],
+            ["vals", [1, 2, 4]], ["vals", [1, 2, 4, 8]], ["vals", [1, 2]], ["vals", [2, 4, 8]], ["vals", [1, 2, 4, 8, 13]]]
+CP1_EXPR = "{'x': (vsc.bin_array([spec[1]], [0, spec[2]]) if spec[0] == 'part' else vsc.bin_array([], *spec[1]))}"
+
+
+def variant_bins(v):
+    if not isinstance(v[0], str):       # (cases saved before the value-list style existed: [n, hi])
+        v = ["part", v[0], v[1]]
+    if v[0] == "part":
+        return [set(x) for x in cov.partition(range(0, v[2] + 1), v[1])]
+    return [{x} for x in v[1]]
 
 
 @hyp.composite
 def cases(d):
     nvar = d.randint(1, 3)
     variants = d.sample(VARIANTS, nvar)
+    if nvar >= 2 and d.chance(35):
+        # force a prefix-related pair
+        variants[:2] = d.choice([[["vals", [1, 2, 4]], ["vals", [1, 2, 4, 8]]], [["vals", [1, 2, 4, 8]], ["vals", [1, 2]]],
+                                 [["part", 2, 7], ["part", 3, 11]], [["part", 4, 15], ["part", 3, 11]], [["part", 1, 3], ["part", 2, 7]]])
     opts = {}
     if d.chance(50):
         opts["at_least"] = d.choice([1, 2, 3])
@@ -46,10 +63,10 @@ def cases(d):
         xo["weight"] = d.choice([1, 0, 2])
     if has_cross and d.chance(30):
         xo["at_least"] = d.choice([1, 2])
-    cg = {"name": "CG", "ctor_args": ["n", "hi"],
+    cg = {"name": "CG", "ctor_args": ["spec"],
           "params": [{"name": "a", "type": {"kind": "bit", "w": 4}}, {"name": "b", "type": {"kind": "bit", "w": 4}}],
           "options": opts,
-          "cps": [{"name": "cp1", "target": "a", "bins": [], "bins_expr": "{'x': vsc.bin_array([n], [0, hi])}", "options": cp1o or None},
+          "cps": [{"name": "cp1", "target": "a", "bins": [], "bins_expr": CP1_EXPR, "options": cp1o or None},
                   {"name": "cp2", "target": "b", "bins": [{"name": "y", "kind": "bin", "items": [1, 2]},
                                                           {"name": "z", "kind": "bin", "items": [[5, 9]]}],
                    "options": cp2o or None}]}
@@ -67,7 +84,7 @@ def cases(d):
 
 
 def text_of(case):
-    return cov.cg_source(case["cg"]) + "# variants (n, hi): %s\n# ops: %s" % (cjson(case["variants"]), cjson(case["ops"]))
+    return cov.cg_source(case["cg"]) + "# variants (constructor argument spec): %s\n# ops: %s" % (cjson(case["variants"]), cjson(case["ops"]))
 
 
 def V(kind, detail, case, extra=None):
@@ -92,8 +109,7 @@ class Model:
         self.b2 = [{1, 2}, {5, 6, 7, 8, 9}]
 
     def new(self, variant):
-        n, hi = variant
-        b1 = [set(x) for x in cov.partition(range(0, hi + 1), n)]
+        b1 = variant_bins(variant)
         shape = tuple(tuple(sorted(s)) for s in b1)
         self.inst.append({"shape": shape, "b1": b1, "h1": [0] * len(b1), "h2": [0, 0], "hx": [0] * (len(b1) * 2)})
 
@@ -150,7 +166,7 @@ def run_case(case):
         try:
             if op[0] == "new":
                 v = case["variants"][op[1]]
-                objs.append(ns["CG"](v[0], v[1]))
+                objs.append(ns["CG"](tuple(v)) if isinstance(v[0], str) else ns["CG"](v[0], v[1]))
                 model.new(v)
             else:
                 objs[op[1]].sample(op[2], op[3])
